@@ -153,6 +153,11 @@ for op, l in LEXOPS.items():
 ob("lex_next_stream_eol", ["C03"], "lexer.rs", unwind=12, unwindset=MEMCHR, unwindset_optional=True, cuts=X1_ERR, stubs=[FMT_STUB],
    functions=["parser::lexer::Lexer::next_stream"], bound="'stream' followed by every 2-byte sequence")
 
+UTF8_STUB = "core::str::from_utf8 -> ASCII-only validator (inputs are assumed ASCII; symbolic UTF-8 validation exhausts memory)"
+for l in (2, 4):
+    ob("lex2_int_value_l%d" % l, ["C03"], "lexer2.rs", unwind=l + 3, cuts=X1_ALL, stubs=[FMT_STUB, UTF8_STUB], timeout=1200, mem_gb=12,
+       tier="quick", functions=["parser::lexer::Substr::to::<i32>", "parser::lexer::Substr::is_integer"],
+       bound="every integer token [+-]?d+ of %d bytes: classified integer and read with its decimal value (leading zeros, sign)" % l)
 SLFN = ["parser::lexer::str::StringLexer::next_lexeme", "parser::lexer::str::StringLexer::next_byte",
         "parser::lexer::str::StringLexer::peek_byte", "parser::lexer::str::StringLexer::back"]
 for l in (1, 2, 3, 4, 5):
@@ -170,6 +175,9 @@ for l in (2, 3, 4, 5):
        bound="one next_lexeme() call from EVERY lexer state (position <= %d, nesting depth 0..999) on every %d-byte buffer: "
              "produced byte / end-of-string, consumed length and nesting depth vs the reference step (inductive step of the "
              "literal-string decoder)" % (l, l))
+ob("strlex_lit_step_cont_l3", ["C03"], "strlex.rs", unwind=5, cuts=X1_ERR, stubs=[FMT_STUB], tier="thorough", timeout=2400, mem_gb=16,
+   unwindset=[(r"StringLexer::<'_>::next_lexeme$", None, 2), (r"verif_h_strlex::lit_step_ref::<", 0, 5)], functions=SLFN,
+   bound="one next_lexeme() call that starts at a line continuation (backslash + CR / LF / CRLF) in a 3-byte buffer")
 ob("strlex_lit_step_cont_l4", ["C03"], "strlex.rs", unwind=5, cuts=X1_ERR, stubs=[FMT_STUB], tier="thorough", timeout=2400, mem_gb=16,
    unwindset=[(r"StringLexer::<'_>::next_lexeme$", None, 2), (r"verif_h_strlex::lit_step_ref::<", 0, 6)], functions=SLFN,
    bound="one next_lexeme() call that starts at a line continuation (backslash + CR / LF / CRLF) in a 4-byte buffer: exactly one "
@@ -207,6 +215,11 @@ for rev in (2, 3):
                   "crypt::Decoder::from_password::check_password_rc4"],
        bound="revision %d, every user password of 0..=40 bytes, every /P, key size %s: hashed bytes = pad32(password) || O || P_le || ID, "
              "%s, file key = first digest" % (rev, "5" if rev == 2 else "16", "no extra rounds" if rev == 2 else "50 extra MD5 rounds over key_size bytes"))
+
+ob("crypt2_key_length_total", ["C14", "C06"], "crypt2.rs", unwind=54, cuts=X1_ALL, stubs=[FMT_STUB, RS_STUB, MD5_STUB, CTX_STUB,
+   "crypt::Rc4::encrypt -> stub asserting Rc4::new's documented precondition (1..=256 key bytes)"], timeout=1800, mem_gb=16,
+   functions=["crypt::Decoder::from_password"], bound="V 2, revision 2, /Length 0 and 8 bits, empty password: no panic, "
+   "the cipher is never called with an empty key")
 
 # ---------------------------------------------------------------------------------------------------------------------
 # object/types.rs: C07 (+ C14 hostile counts / cycles)
@@ -328,20 +341,22 @@ ob("backend_locate_header", ["C01"], "backend.rs", unwind=9, cuts=X1_ERR, stubs=
 # ---------------------------------------------------------------------------------------------------------------------
 X1_FONT = X1_ALL + ["font::Font", "font::FontData", "font::CIDFont", "font::FontDescriptor", "font::Widths"]
 for h in ("font2_w_array_ascending", "font2_w_array_descending"):
-    ob(h, ["X94"], "font2.rs", unwind=8, cuts=X1_FONT, stubs=[FMT_STUB, RS_STUB], timeout=1500, mem_gb=16,
+    ob(h, ["C19"], "font2.rs", tier="infeasible", unwind=8, cuts=X1_FONT, stubs=[FMT_STUB, RS_STUB], timeout=1500, mem_gb=16,
        functions=["font::Font::widths", "font::Widths::set", "font::Widths::_set", "font::Widths::get"],
        bound="/W [2 [a b] 6 7 c] (%s order) with symbolic widths and /DW, every code 0..=10" % h[14:])
-ob("parser2_name3", ["X95"], "parser2.rs", unwind=7, unwindset=[(r"^core::slice::memchr::memchr_naive$", 0, 11)], unwindset_optional=True, cuts=X1_ALL, guards=[r"^parser::parse_with_lexer_ctx::<", r"^parser::parse_dictionary_object::<"],
+for h in ("parser2_int_then_sep", "parser2_int_at_end"):
+    ob(h, ["C03", "C11"], "parser2.rs", tier="infeasible", unwind=6, unwindset=[(r"^core::slice::memchr::memchr_naive$", 0, 11)], unwindset_optional=True, cuts=X1_ALL,
+       guards=[r"^parser::parse_with_lexer_ctx::<", r"^parser::parse_dictionary_object::<"], stubs=[FMT_STUB, UTF8_STUB], timeout=1500, mem_gb=16,
+       functions=["parser::_parse_with_lexer_ctx"], bound=h)
+ob("parser2_name3", ["C03"], "parser2.rs", tier="infeasible", unwind=7, unwindset=[(r"^core::slice::memchr::memchr_naive$", 0, 11)], unwindset_optional=True, cuts=X1_ALL, guards=[r"^parser::parse_with_lexer_ctx::<", r"^parser::parse_dictionary_object::<"],
    stubs=[FMT_STUB], timeout=10000, mem_gb=24, functions=["parser::_parse_with_lexer_ctx"], bound="names of 3 ASCII bytes")
-ob("types2_page_shape_a", ["X96"], "types2.rs", unwind=5, cuts=X1_PAGE, stubs=[FMT_STUB, RS_STUB], timeout=1500, mem_gb=16,
+ob("types2_page_shape_a", ["C07"], "types2.rs", tier="infeasible", unwind=5, cuts=X1_PAGE, stubs=[FMT_STUB, RS_STUB], timeout=1500, mem_gb=16,
    unwindset=[(r"^object::types::PageTree::page_limited::<", None, 3)], unwindset_optional=True,
    functions=["object::types::PageTree::page", "object::types::PageTree::page_limited"],
    bound="shape root[T[], L, T[L, L]], every page index 0..=4, fresh nodes per request")
-ob("typesprobe_descent", ["X98"], "types_probe.rs", unwind=4, cuts=X1_ERR, timeout=300, functions=[], bound="probe")
-ob("typesprobe_descent_b", ["X97"], "types_probe.rs", harness="typesprobe_descent", unwind=4, cuts=X1_ALL, timeout=300, functions=[], bound="probe")
 PARSER_GUARDS = [r"^parser::parse_with_lexer_ctx::<", r"^parser::parse_dictionary_object::<"]
 for l in (1, 2):
-    ob("parser_scalar_total_l%d" % l, ["X99"], "parser.rs", unwind=l + 2, cuts=X1_ALL, guards=PARSER_GUARDS,
+    ob("parser_scalar_total_l%d" % l, ["C01"], "parser.rs", tier="infeasible", unwind=l + 2, cuts=X1_ALL, guards=PARSER_GUARDS,
        stubs=[FMT_STUB], timeout=1200, mem_gb=16,
        functions=["parser::_parse_with_lexer_ctx"], bound="all buffers of %d bytes" % l)
 
